@@ -6,6 +6,9 @@ import (
 	"errors"
 	"fmt"
 	"io"
+	"os"
+	"path/filepath"
+	"runtime"
 	"strings"
 
 	"grits/parser"
@@ -231,6 +234,36 @@ func tail(s string, n int) string {
 
 func init() {
 	extraProps["C11"] = func(w *Worker, seed uint64, checks int) ([]string, string) {
+		if w.Out.Extra["scaling_probes_run"] == 0 {
+			// once per worker process: the allocation-volume scaling probes
+			w.Out.Extra["scaling_probes_run"] = 1
+			for _, sh := range scaleShapes {
+				a, b := scaleAlloc(sh.make(2000)), scaleAlloc(sh.make(8000))
+				ratio := float64(b) / float64(a+1)
+				w.Out.Runs += 2
+				w.Out.Cases += 2
+				if int(ratio*100) > w.Out.Extra["max_alloc_ratio_x100_for_4x_input"] {
+					w.Out.Extra["max_alloc_ratio_x100_for_4x_input"] = int(ratio * 100)
+				}
+				if ratio > 6.5 {
+					v := Violation{Prop: "C11", Class: "superlinear", Msg: fmt.Sprintf("shape %q: parsing 4x the input allocates %.1fx the memory (%d -> %d bytes): work is not linear in the input length", sh.name, ratio, a, b)}
+					if id := matchKnown(w.Known, &v, map[string]string{"shape": sh.name}); id != "" {
+						w.Out.Known[id]++
+						continue
+					}
+					dir := filepath.Join(w.OutDir, "replays")
+					os.MkdirAll(dir, 0o755)
+					path := filepath.Join(dir, fmt.Sprintf("C11-superlinear-%s.json", sh.name))
+					rf := &replayFile{Property: "C11", Engine: "stream-scale", Violation: v, Input: map[string]any{"shape": sh.name, "n": 2000, "factor": 4}}
+					b, _ := json.MarshalIndent(rf, "", " ")
+					os.WriteFile(path, b, 0o644)
+					w.Out.Violations = append(w.Out.Violations, ViolationRec{Violation: v, Replay: path, Size: 1})
+				}
+			}
+			if len(w.Out.Violations) > 0 {
+				return nil, ""
+			}
+		}
 		return rapidRound(seed, checks*4, func(rt *rapid.T) {
 			rec := newRecorder(rt)
 			c := DrawStreamCase(rec)
@@ -292,6 +325,21 @@ func init() {
 			rt.Fatalf("%s", v.Class)
 		})
 	}
+	extraReplays["stream-scale"] = func(w *Worker, rf *replayFile, path string) {
+		b, _ := json.Marshal(rf.Input)
+		var in struct {
+			Shape string `json:"shape"`
+		}
+		json.Unmarshal(b, &in)
+		for _, sh := range scaleShapes {
+			if sh.name == in.Shape {
+				a, b := scaleAlloc(sh.make(2000)), scaleAlloc(sh.make(8000))
+				if ratio := float64(b) / float64(a+1); ratio > 6.5 {
+					w.Out.Violations = append(w.Out.Violations, ViolationRec{Violation: Violation{Prop: "C11", Class: "superlinear", Msg: fmt.Sprintf("shape %q: ratio %.1f", sh.name, ratio)}, Replay: path})
+				}
+			}
+		}
+	}
 	extraReplays["stream"] = func(w *Worker, rf *replayFile, path string) {
 		var c *StreamCase
 		if b, err := json.Marshal(rf.Input); err == nil && rf.Input != nil {
@@ -311,4 +359,58 @@ func init() {
 			w.Out.Violations = append(w.Out.Violations, ViolationRec{Violation: *v, Replay: path})
 		}
 	}
+}
+
+// ---- scaling probes (the "bound linear in len(s)" half of C11) ----
+//
+// Time is not a usable measure under a loaded simulator; bytes allocated by one parse are:
+// they are a deterministic function of the input. Each probe parses the same shape at n and
+// 4n units and compares the allocation volumes. Only shapes on which the shipped parser is
+// linear are probed (its `statements`, `names` and branch-type lists prepend, which is
+// quadratic in the *number of declarations* today and is recorded in DESIGN.md, not chased).
+
+type scaleShape struct {
+	name string
+	make func(n int) string
+}
+
+var scaleShapes = []scaleShape{
+	{"case-with-n-branches", func(n int) string {
+		var sb strings.Builder
+		sb.WriteString("prc[a] : 1 = case b (\n")
+		for i := 0; i < n; i++ {
+			if i > 0 {
+				sb.WriteString("  | ")
+			}
+			fmt.Fprintf(&sb, "l%d<x> => close self\n", i)
+		}
+		sb.WriteString(")\n")
+		return sb.String()
+	}},
+	{"n-line-comments", func(n int) string {
+		return strings.Repeat("// comment line\n", n) + "prc[a] : 1 = close self\n"
+	}},
+	{"block-comment-n-lines", func(n int) string {
+		return "/*" + strings.Repeat(" x y z\n", n) + "*/ prc[a] : 1 = close self\n"
+	}},
+	{"n-blank-lines", func(n int) string { return strings.Repeat("\n", n) + "prc[a] : 1 = close self\n" }},
+	{"identifier-of-length-n", func(n int) string { return "prc[" + strings.Repeat("a", n) + "] : 1 = close self\n" }},
+	{"n-nested-parentheses", func(n int) string {
+		if n > 4000 {
+			n = 4000 + (n-4000)/8 // goyacc's value stack grows with nesting; keep it moderate
+		}
+		return "prc[a] : 1 = " + strings.Repeat("(", n) + "close self" + strings.Repeat(")", n) + "\n"
+	}},
+	{"print-chain-of-length-n", func(n int) string {
+		return "prc[a] : 1 = " + strings.Repeat("print l;\n", n) + "close self\n"
+	}},
+}
+
+func scaleAlloc(text string) uint64 {
+	var m0, m1 runtime.MemStats
+	runtime.GC()
+	runtime.ReadMemStats(&m0)
+	parser.ParseReader(&simReader{data: []byte(text), errAt: -1})
+	runtime.ReadMemStats(&m1)
+	return m1.TotalAlloc - m0.TotalAlloc
 }
